@@ -89,6 +89,11 @@ def warm_oracle(scn) -> core.CaseResult:
         if not res.check(r1["status"] == "ok", "run_fails", f"warm start from {wname}: {r1['exc']}\n{(r1['tb'] or '')[-600:]}"):
             return res
         writes = [e for e in r1["log"] if e[0] == "write"]
+        # the model time of a record is the restart time plus its step count (not whatever the clock object says)
+        t_restart = np.datetime64(m0["start"], "s") + np.timedelta64(done * sim.DT, "s")
+        for w in writes:
+            res.check(np.datetime64(w[2], "s") == t_restart + np.timedelta64(w[1] * sim.DT, "s"), "record_model_time",
+                      f"warm start from {wname} at {t_restart}: record of step {w[1]} written with model time {w[2]}")
         names = e2e.list_outputs(d1)
         # without a configured reference time the file's own reference is taken as given (the restart time)
         ref = np.datetime64(m1["ref"], "s") if scn["output"]["ref"] != "none" else None
@@ -254,12 +259,101 @@ def warm_cases(draw):
     return scn
 
 
+def pid_law_warm_oracle(scn) -> core.CaseResult:
+    """C05 output side across a restart: a warm-started run never hands out an identifier that an earlier
+    particle had (dead or alive), and its records obey the same ordering laws."""
+    import copy
+
+    res = core.CaseResult()
+    numrec = scn["output"]["numrec"]
+    nsteps = scn["time"]["nsteps"]
+    with e2e.workdir() as d0, e2e.workdir() as d1:
+        r0, m0 = sim.run(d0, scn, record_output=False)
+        if r0["status"] != "ok":
+            res.cls("run_failed_not_judged_here")
+            return res
+        names0 = e2e.list_outputs(d0)
+        files = {n: e2e.read_sparse(d0 / n) for n in names0}
+        points = []
+        for k, wname in enumerate(names0):
+            fk = files[wname]
+            if len(fk["times"]) < numrec:
+                continue
+            done = int((fk["times"][-1] - m0["start"]) / np.timedelta64(sim.DT, "s"))
+            if done < nsteps:
+                points.append((k, wname, done))
+        if not points:
+            res.cls("no_restart_point")
+            return res
+        k, wname, done = points[scn["warm_point"] % len(points)]
+        old = set()
+        for n in names0[:k + 1]:
+            for rec in files[n]["records"]:
+                old |= {int(p) for p in rec["pid"]}
+        live = {int(p) for p in files[wname]["records"][-1]["pid"]}
+        path, m1 = sim.build(d1, copy.deepcopy(scn), out_name=f"out_{k + 1:03d}.nc", record_output=False,
+                             ibm_offset=done)
+        conf = m1["conf"]
+        del conf["time"]["start"]
+        wvars = ["tag", "age"] + (["temp"] if scn["forcing"]["temp"] else []) + list(scn["pvars"])
+        conf["warm_start"] = {"filename": str(d0 / wname), "variables": wvars}
+        e2e.write_yaml(conf, path)
+        r1 = e2e.run_main(path)
+        if r1["status"] != "ok":
+            res.cls("run_failed_not_judged_here")
+            return res
+        seen = set(live)
+        top = max(old) if old else -1
+        fresh = 0
+        for name in e2e.list_outputs(d1):
+            f = e2e.read_sparse(d1 / name)
+            for n, rec in enumerate(f["records"]):
+                pid = [int(p) for p in rec["pid"]]
+                res.check(all(a < b for a, b in zip(pid, pid[1:])), "record_pid_order",
+                          f"after restart, {name} rec {n}: pid not strictly increasing {pid}")
+                res.check(all(p >= j for j, p in enumerate(pid)), "record_pid_ge_k",
+                          f"after restart, {name} rec {n}: pid[k] < k in {pid}")
+                for p_ in pid:
+                    if p_ in seen:
+                        continue
+                    if not res.check(p_ > top, "pid_reused_after_restart",
+                                     f"restart from {wname}: {name} rec {n} shows a new particle with pid {p_}, but "
+                                     f"identifiers up to {top} were already used before the restart (alive at the "
+                                     f"restart: {sorted(live)})"):
+                        return res
+                    seen.add(p_)
+                    fresh += 1
+        res.nontrivial = fresh >= 1
+        if old - live:
+            res.cls("dead_identifiers_before_restart")
+        if old and max(old) not in live:
+            res.cls("highest_identifier_dead_at_restart")
+    return res
+
+
+@st.composite
+def pid_warm_cases(draw):
+    """Restart scenarios biased towards what makes identifier reuse possible: the youngest particles die soon
+    (short lifetime), releases keep coming (continuous), and often no particle variable is written."""
+    scn = draw(warm_cases())
+    if draw(st.booleans()):
+        scn["pvars"] = []
+    if draw(st.booleans()):
+        scn["ibm"]["lifetime"] = draw(st.sampled_from([1, 2, 2, 3]))
+    if draw(st.booleans()) and not scn["release"]["continuous"]:
+        scn["release"]["continuous"] = True
+        scn["release"]["freq"] = draw(st.integers(1, 3))
+    return scn
+
+
 def shard(part, n, seed, known):
     stt = core.Stats()
     if part == "records":
         core.drive("records", cases(), oracle, n, seed, stt, known)
     elif part == "warm":
         core.drive("warm", warm_cases(), warm_oracle, n, seed, stt, known)
+    elif part == "output_warm":
+        core.drive("output_warm", pid_warm_cases(), pid_law_warm_oracle, n, seed, stt, known)
     else:
         core.drive("output", sim.scenario(layouts=("sparse",)), pid_law_oracle, n, seed, stt, known)
     return stt
@@ -267,7 +361,9 @@ def shard(part, n, seed, known):
 
 def run_pid_laws(ctx):
     jobs = [("output", k, core.subseed(ctx.seed, "pidlaw", i), frozenset())
-            for i, k in enumerate(core.split(ctx.n(320, 6000), 16))]
+            for i, k in enumerate(core.split(ctx.n(320, 6000), 10))]
+    jobs += [("output_warm", k, core.subseed(ctx.seed, "pidlaww", i), frozenset())
+             for i, k in enumerate(core.split(ctx.n(360, 5000), 6))]
     stats = core.Stats()
     for s in core.pmap(shard, jobs):
         stats.merge(s)
@@ -296,4 +392,4 @@ def run(ctx):
 
 
 def replay(part, case):
-    return {"records": oracle, "warm": warm_oracle}.get(part, pid_law_oracle)(case)
+    return {"records": oracle, "warm": warm_oracle, "output_warm": pid_law_warm_oracle}.get(part, pid_law_oracle)(case)
